@@ -462,6 +462,35 @@ def p3_delete_frees(prog):
                 # the body frees nothing itself: the freeing may have been handed to the callers (a closure run by this
                 # body, or a column it hands back) - then every caller has to do it, seen with this body walked inline
                 callers = [g for g in prog.fns.values() if g.dp != f.dp and g.kind != 'Closure' and g.body is not None and g.body.calls(lambda c: (c.get('res') or c).get('dp') == f.dp)]
+                def reaches_allocator(g):
+                    # does the function hold an allocator at all (parameter, or a field it projects)? one that does not
+                    # cannot free: it is a detached context (the clearing pass of clone_from), like clear_detached's callers
+                    def is_alloc(t, depth=0, seen=None):
+                        # the type, or a field of a crate type it contains (to depth 3), is the allocator
+                        seen = seen if seen is not None else set()
+                        hit = [False]
+
+                        def visit(n):
+                            if is_adt(n, 'entity::allocator::Allocator'):
+                                hit[0] = True
+                            elif n.get('k') == 'adt' and n['path'] in prog.adts and n['path'] not in seen and depth < 3:
+                                seen.add(n['path'])
+                                for v_ in prog.adts[n['path']]['variants']:
+                                    for fl in v_['fields']:
+                                        if is_alloc(fl['ty'], depth + 1, seen):
+                                            hit[0] = True
+                            return False
+                        ty_mentions(t, visit)
+                        return hit[0]
+                    for h in [g] + g.closures():
+                        for i_ in range(1, len(h.body.locals)):
+                            if is_alloc(h.body.local_ty(i_) or {}):
+                                return True
+                    return False
+                detached = [g for g in callers if not reaches_allocator(g)]
+                callers = [g for g in callers if reaches_allocator(g)]
+                for g in detached:
+                    r.inst('%s: clears tables without an allocator in reach (detached)' % g.path[:70])
                 if callers:
                     tot = [0, 0]
                     for g in callers:
